@@ -33,7 +33,7 @@ EXPLANATION = (
 NOT_DECIDED = ["floating-point agreement with the closed forms", "np.linalg.eigvalsh / np.histogram internals", "nematic order parameter, dipole moments, dielectric constant, isothermal compressibility, inertia tensor",
                "the numerical values of the published Karplus coefficients"]
 ASSUMPTIONS = ["np.linalg.eigvalsh returns eigenvalues in ascending order", "1 amu / nm^3 = 1.66053907 kg / m^3"]
-FLOORS = {"C16-R1": 8, "C16-R2": 7, "C16-R3": 6, "C16-R4": 6, "C16-R5": 12, "C16-R6": 3, "C16-R7": 8, "C16-R8": 9}
+FLOORS = {"C16-R1": 8, "C16-R2": 7, "C16-R3": 6, "C16-R4": 6, "C16-R5": 12, "C16-R6": 5, "C16-R7": 8, "C16-R8": 9}
 
 MOM = "mdtraj/geometry/src/moments.cpp"
 DRIDC = "mdtraj/geometry/src/dridkernels.cpp"
@@ -349,12 +349,33 @@ def r5(ctx):
                         same_block = True
         ok = len(apps) == 2 and same_block and "residue_pairs=np.array(filtered_residue_pairs)" in t and "distances=md.compute_distances(traj,atom_pairs,periodic=periodic)" in t
     ctx.decide(ok, "C16-R5", ca[0] if ca else fn, CONTACT, "compute_contacts", "scheme 'ca': atom pair and residue label are appended in the same branch; labels = filtered pairs", "", "the CA scheme no longer filters labels in lock-step with the atom pairs")
+    # the list handed to compute_distances is the list that was built: no reordering between the appends and the call
+    if ca:
+        blk = ast.Module(body=ca[0].body, type_ignores=[])
+        reb = [n for n in ast.walk(blk) if isinstance(n, ast.Assign) and dotted(n.targets[0]) == "atom_pairs" and not (isinstance(n.value, ast.List) and not n.value.elts)]
+        mut = [n for n in ast.walk(blk) if isinstance(n, ast.Call) and isinstance(n.func, ast.Attribute) and dotted(n.func.value) == "atom_pairs" and n.func.attr in ("sort", "reverse", "insert", "pop", "remove")]
+        ctx.decide(not reb and not mut, "C16-R5", (reb + mut)[0] if (reb + mut) else ca[0], CONTACT, "compute_contacts", "scheme 'ca': atom_pairs is only appended to (order = order of the labels)", "",
+                   "`%s` reorders the atom pairs after the residue labels were collected: distance columns no longer sit under their residue pair" % (src((reb + mut)[0])[:60] if (reb + mut) else ""))
     ret = [n for n in walk_no_nested(fn) if isinstance(n, ast.Return)]
     ctx.decide(bool(ret) and _n(src(ret[-1].value)) == "(distances,residue_pairs)", "C16-R5", ret[-1] if ret else fn, CONTACT, "compute_contacts", "returns (distances, residue_pairs)", "", "return value changed")
 
 
 # ---------------------------------------------------------------------------------------------------
+def r9_dipole(ctx):
+    """dipole = sum_i q_i r_i with r_i built from two minimum-image displacements (atom -> first atom of its residue -> atom 0)"""
+    fn = ctx.py.func(THERMO, "dipole_moments")
+    calls = [n for n in walk_no_nested(fn) if isinstance(n, ast.Call) and (call_name(n) or "").endswith("compute_displacements")]
+    per = [kwarg(c, "periodic") for c in calls]
+    ok = len(calls) == 2 and all(p is not None and const(p) is True for p in per)
+    ctx.decide(ok, "C16-R6", calls[0] if calls else fn, THERMO, "dipole_moments", "both displacement legs are minimum-image (periodic=True)", "",
+               "the displacement legs use periodic=%s: a charged residue beyond half a box length from atom 0 contributes a dipole that changes under a lattice translation" % [src(p) if p is not None else None for p in per])
+    s = _n(src(fn))
+    ok = "xyz=local_displacements+molecule_displacements" in s and ("moments=xyz.transpose(0,2,1).dot(charges)" in s or "dot(charges)" in s)
+    ctx.decide(ok, "C16-R6", fn, THERMO, "dipole_moments", "moment = sum_i q_i (local + molecule displacement)", "", "dipole formula changed")
+
+
 def r6(ctx):
+    r9_dipole(ctx)
     ctx.analysed_files.add(THERMO)
     fn = ctx.py.func(THERMO, "density")
     conv = [n for n in walk_no_nested(fn) if isinstance(n, ast.Assign) and dotted(n.targets[0]) == "conversion"]
